@@ -587,7 +587,8 @@ def run(ctx: Ctx):
                        key=key_of("R11.2", f, None, f"range {norm(s)}"))
     # gaplength skip loop bounded by the horizon is covered by R11.1; the slot walk's window test:
     sched = repo.func("TaskScenario.schedule")
-    walks = [w for w in own_nodes(sched) if isinstance(w, ast.While) and "scheduleSlot" in norm(w.test)]
+    from .common import slot_walks
+    walks = slot_walks(sched)
     for w in walks:
         win = [i for i in w.body if isinstance(i, ast.If) and "lowerLimit" in norm(i.test) and "upperLimit" in norm(i.test)]
         ok = bool(win) and any(isinstance(s, ast.Return) for s in win[0].body) and \
